@@ -223,7 +223,7 @@ impl CoordTrait for PointZ {
             1 => self.y(),
             2 => self.z,
             3 => {
-                if self.m > NO_DATA {
+                if !(self.m <= NO_DATA) {
                     self.m
                 } else {
                     panic!("asked for 4th item from coordinate but this coordinate does not have 4 dimensions.")
@@ -259,7 +259,7 @@ impl CoordTrait for &PointZ {
             1 => self.y(),
             2 => self.z,
             3 => {
-                if self.m > NO_DATA {
+                if !(self.m <= NO_DATA) {
                     self.m
                 } else {
                     panic!("asked for 4th item from coordinate but this coordinate does not have 4 dimensions.")
